@@ -2643,7 +2643,12 @@ func _return(n *node) {
 					// empty interface case.
 					// we can't let genValueInterface deal with it, because we call on c,
 					// not on n, which means that the interfaceT knowledge is lost.
-					values[i] = genValue(c)
+					if hasMethodSrc(c.typ) {
+						// The value keeps its interpreted type, for later type assertions.
+						values[i] = genValueInterface(c)
+					} else {
+						values[i] = genValue(c)
+					}
 					break
 				}
 				values[i] = genValueInterface(c)
@@ -2946,6 +2951,7 @@ func doComposite(n *node, hasType bool, keyed bool) {
 		child = n.child[1:]
 	}
 	destInterface := isInterfaceSrc(destType(n))
+	hasMethods := hasMethodSrc(n.typ)
 
 	values := make(map[int]func(*frame) reflect.Value)
 	for i, c := range child {
@@ -2991,7 +2997,7 @@ func doComposite(n *node, hasType bool, keyed bool) {
 			d.Set(a.Addr())
 		case destInterface && d.Type() != rt:
 			// The literal is built directly in the destination, of interface type.
-			if len(destType(n).field) > 0 {
+			if len(destType(n).field) > 0 || hasMethods {
 				d.Set(reflect.ValueOf(valueInterface{n, a}))
 				break
 			}
